@@ -121,6 +121,8 @@ func (t *Transport) LogString() string {
 			sb.WriteString("R" + strconv.Itoa(e.N))
 		case 'W':
 			sb.WriteString("W" + hex.EncodeToString(e.W) + "/" + hex.EncodeToString(e.Emit))
+		case 'J':
+			sb.WriteString("J" + hex.EncodeToString(e.W))
 		default:
 			sb.WriteByte(e.Kind)
 		}
@@ -153,6 +155,19 @@ func (t *Transport) NCLogString() string {
 		return "-"
 	}
 	return sb.String()
+}
+
+// DeliveredBytes returns every byte the reads have returned so far, in order.
+func (t *Transport) DeliveredBytes() []byte {
+	t.mu.Lock()
+	defer t.mu.Unlock()
+	var b []byte
+	for _, e := range t.Events {
+		if e.Kind == 'R' {
+			b = append(b, e.W...)
+		}
+	}
+	return b
 }
 
 // WriteEmissions returns, for each Write in order, the bytes written and the device's emission.
@@ -416,5 +431,10 @@ func (t *Transport) Inject(atoms [][]byte) {
 	t.mu.Lock()
 	defer t.mu.Unlock()
 	t.pending = append(t.pending, atoms...)
+	var all []byte
+	for _, a := range atoms {
+		all = append(all, a...)
+	}
+	t.Events = append(t.Events, Event{Kind: 'J', W: all})
 	t.cond.Broadcast()
 }
